@@ -497,6 +497,24 @@ fn proc_cases(thorough: bool) -> Vec<ProcCase> {
             fault("only-commented-annotation", vec![("ws/c/src/c.rs", b"// #[typeshare]\npub struct C { pub a: u32 }\n".to_vec())], vec![], None, vec![], "ws");
             fault("bom-prefixed", vec![("ws/c/src/bom.rs", [b"\xef\xbb\xbf".to_vec(), good.clone()].concat())], vec![], None, vec![], "ws");
             fault("crlf-line-endings", vec![("ws/c/src/crlf.rs", b"#[typeshare]\r\npub struct Good { pub a: u32 }\r\n".to_vec())], vec![], None, vec![], "ws");
+            // more annotated files than the result channel holds (capacity 100), free running
+            for n in [100usize, 101, 130, 260] {
+                if !thorough && n == 260 {
+                    continue;
+                }
+                v.push(ProcCase {
+                    label: format!("many-files:{n}"),
+                    files: (0..n).map(|i| (format!("ws/big/src/m{i:03}.rs"), format!("#[typeshare]\npub struct M{i:03} {{ pub a: u32 }}\n").into_bytes())).collect(),
+                    setup: vec![],
+                    lang,
+                    multi,
+                    offending: None,
+                    extra_args: vec![],
+                    input: "ws".into(),
+                    cwd: String::new(),
+                    raw_inputs: vec![],
+                });
+            }
             // how the input directory is spelled on the command line, relative to where the process runs
             for (cwd, inputs) in [
                 ("ws/mycrate", vec!["src"]),
